@@ -177,6 +177,14 @@ func c17jValueNodes(v cty.Value) int {
 //	                             >= 10^4 and the allocation is within 64 bytes per unit of exponent: a set
 //	                             member is hashed through big.Float.String(), which expands the number
 //	                             in decimal (~16 bytes and super-linear time per unit of exponent)
+//	set-of-compound-members-ordered-by-hash-at-every-traversal
+//	                             the decoded value's type holds a set whose members are not primitive and
+//	                             the allocation is within 32 times the bound: every traversal of such a set
+//	                             (set.Values) sorts the members with setRules.Less, which for non-primitive
+//	                             members builds the hash text of BOTH operands of every comparison
+//	                             (n log n hash texts of whole members per traversal, several traversals per
+//	                             nesting level).  The EXPONENTIAL cost in the nesting depth that SetVal's
+//	                             unconditional UnmarkDeep added on top was repaired (nested-singleton-sets family).
 //	unexpected                   anything else (never matches a recorded finding)
 func c17jAllocCause(b []byte, r c17jRes) string {
 	limit := uint64(c17jAllocK)*uint64(len(b)) + c17jAllocC
@@ -190,8 +198,38 @@ func c17jAllocCause(b []byte, r c17jRes) string {
 		if n := c17jValueNodes(r.v); n > len(b) && r.alloc <= uint64(n)*1024+limit {
 			return "value-larger-than-document"
 		}
+		if c17jHasSetOfCompound(r.v.Type()) && r.alloc <= 32*limit {
+			return "set-of-compound-members-ordered-by-hash-at-every-traversal"
+		}
 	}
 	return "unexpected"
+}
+
+// c17jHasSetOfCompound: the type holds a set whose element type is not primitive — the members of such
+// a set are ordered by setRules.Less through makeSetHashBytes of BOTH operands of every comparison
+func c17jHasSetOfCompound(t cty.Type) bool {
+	switch {
+	case t.IsSetType():
+		if e := t.ElementType(); !e.IsPrimitiveType() {
+			return true
+		}
+		return false
+	case t.IsListType() || t.IsMapType():
+		return c17jHasSetOfCompound(t.ElementType())
+	case t.IsTupleType():
+		for _, e := range t.TupleElementTypes() {
+			if c17jHasSetOfCompound(e) {
+				return true
+			}
+		}
+	case t.IsObjectType():
+		for _, e := range t.AttributeTypes() {
+			if c17jHasSetOfCompound(e) {
+				return true
+			}
+		}
+	}
+	return false
 }
 
 var c17jExpRe = regexp.MustCompile(`[0-9][eE][+-]?([0-9]{1,18})`)
@@ -914,6 +952,30 @@ func (j *c17j) families() {
 		}
 		tr("exponents")
 	}
+	// (b'') sets nested in sets.  (1) chains of singleton sets: cty.SetVal used to UnmarkDeep every member,
+	// which rebuilds every set nested inside through SetVal again — 2^depth (repaired; regression).
+	// (2) a set of 16 three-member sets under three more set levels: every traversal re-sorts the members
+	// by hashing both operands of every comparison (recorded finding).
+	for _, d := range []int{6, 10, 14} {
+		b := []byte(strings.Repeat("[", d) + "1" + strings.Repeat("]", d))
+		t := cty.Number
+		for i := 0; i < d; i++ {
+			t = cty.Set(t)
+		}
+		j.unmarshalBig(b, t, fmt.Sprintf("nested-singleton-sets depth=%d", d), fmt.Sprintf("json.Unmarshal([]byte(strings.Repeat(\"[\", %d)+\"1\"+strings.Repeat(\"]\", %d)), Set^%d(Number))", d, d, d))
+		ctx.Eval(fmt.Sprintf("family nested-singleton-sets %d", d), true)
+	}
+	{
+		parts := make([]string, 16)
+		for i := range parts {
+			parts[i] = fmt.Sprintf("[%d.1,2,null]", i)
+		}
+		b := []byte("[[[" + strings.Join(parts, ",") + "]]]")
+		t := cty.Set(cty.Set(cty.Set(cty.Set(cty.Number))))
+		j.unmarshalBig(b, t, "set-of-16-sets depth=4", c17jLit("json.Unmarshal", b, t))
+		ctx.Eval("family set-of-sets 16", true)
+	}
+	tr("nested-sets")
 	// (c) crash isolation: ImpliedType recurses once per '[' with no depth limit; a few megabytes of
 	// '[' exhaust the 1 GB goroutine stack — a fatal error, not a panic.  In a worker process.
 	for _, c := range []struct {
